@@ -6,7 +6,7 @@ from core import Case, nlist
 from pyerr import canon_call, exc_code
 
 PROP = 'C07'
-COQ_TARGETS = ['theories/ApciFacts.vo', 'theories/ApciRound.vo']
+COQ_TARGETS = ['theories/ApciFacts.vo', 'theories/ApciHdr.vo']
 COQ_IMPORTS = 'From Bac Require Import Base PyRt Apci.\nFrom BacGen Require Import ApduFns.'
 TABLE_OBLIGATIONS = ['maxsegs_round_down', 'maxsegs_refuse_below', 'maxsegs_unspecified', 'maxsegs_greatest',
                      'maxapdu_round_down', 'maxapdu_refuse_below', 'maxapdu_greatest',
